@@ -4,8 +4,20 @@ C02 -- grading failures surface only as library errors with student-safe message
 ENUM: every token string up to a length bound, every hostile expression up to depth 2, deep
 nestings, list/interval/sum shapes and non-text objects are submitted twice: to a grader built
 with debug=True (the documented way to see the untranslated failure: the front door re-raises
-whatever happened) and to an identically configured grader with debug=False under the same RNG
-schedule.  A reference model of the front door predicts the debug=False outcome from the raw one.
+whatever happened) and to an identically configured grader with debug off (the option is NOT
+passed: documented default) under the same RNG schedule.  A reference model of the front door
+predicts the debug-off outcome from the raw one.
+
+The twin comparison cannot see a mistake that is made identically with and without debug (an
+anticipated problem that lost its specific class inside the library, a wrapper grader that
+swallows or re-labels it).  Those are covered by tables with an INDEPENDENT expectation: the
+documented error class per anticipated mistake -- alone, after all other mistakes, typed into
+the same box inside every other grader class / nesting, placed in inputs of thousands of terms,
+and generated from closed arithmetic facts (division by an expression that is exactly zero,
+arithmetic beyond the largest float); documented refusals of the list / string / sum / interval
+graders and of FormulaGrader's restriction options with author-configured multi-line messages;
+author-written grading code that raises (closed formula for what the student must see); non-text
+objects at every box position.
 """
 import itertools
 import collections
@@ -23,13 +35,19 @@ import mitxgraders.helpers.calc.expressions as X
 
 PROPERTY = 'C02'
 RULE = ('all token strings up to a length bound x 3 math graders; all f(leaf), f(leaf,leaf), leaf op leaf and one more level over '
-        'hostile leaves; nesting depths; list / interval / sum shapes; non-text objects x every grader class; a case is '
-        'non-trivial when the raw (debug=True) outcome is an exception')
+        'hostile leaves; nesting depths; list / interval / sum shapes; non-text objects x every grader class and every box position; '
+        'tables of anticipated mistakes / documented refusals with the documented error class (alone, after each other, through every '
+        'wrapper grader, at length, generated zero-division and overflow forms); failing author code x exception classes x student texts; '
+        'a case is non-trivial when the raw (debug=True) outcome is an exception or the table demands an error')
 EXPLANATION = ('states = distinct (grader, input) cases; transitions = real grader calls (debug twin + debug-off grader)')
 ASSUMPTIONS = ['the debug=True twin shows the raw outcome (documented behaviour of debug mode)',
                'reference model of the front door: raw result -> result; raw library error -> same class, message with line breaks as <br/>; '
                'any other raw exception -> StudentFacingError "Invalid Input: Could not check input(s) ..." naming the submission',
-               'numerically huge loop bounds are outside the alphabet; a case that needs > 10 s is reported as non-termination']
+               'numerically huge loop bounds are outside the alphabet; a case that needs > 10 s is reported as non-termination',
+               'expected error classes of the tables come from the documentation (docs/, changelog) and from arithmetic facts, not from '
+               'running the library; an exactly-zero denominator means division by zero, a modulus beyond 1.8e308 means overflow',
+               'author code = the documented extension points (ItemGrader subclass implementing check_response, comparer function); only '
+               'exceptions inheriting from MITxError may show their message (changelog, version 1.1)']
 
 
 def run_pair(gd, gn, inp):
@@ -614,10 +632,10 @@ def wrapped_rows():
     return rows
 
 
-def long_rows():
+def long_rows(tier='quick'):
     """anticipated mistakes at the end of / inside LONG flat inputs (sizes far beyond the token-string bound)"""
     rows = []
-    for n in (10, 300, 2000):
+    for n in (10, 300, 2000) + ((5000,) if tier == 'thorough' else ()):
         ones = '+'.join(['1'] * n)
         rows += [
             ('Formula', ones + '+', 'malformed formula after %d terms' % n, ('UnableToParse',)),
@@ -668,13 +686,35 @@ OVERFLOWS = ['1e308*10', '1e308+1e308', '-1e308-1e308', '1e308*x', 'x*1e308*x', 
              '1e200*1e200', '(1e308*10)-(1e308*10)', '0*(1e308*10)', '1/(1e308*10)', 'tan(pi/2)^400', '1e308*i*10',
              '(1e308+1e308*i)*(1e308+1e308*i)', 'exp(1000*i+1000)', '10^400*0', 'arctan(10^400)', 'sinh(1e308)', '1e308*1e308*1e308']
 ARRAY_OVERFLOWS = ['[1e308,1]*10', '1e308*[1,2]*10', 'A*1e308*1e308', '[1e308,1e308]*[1e308,1e308]', '[1,2]*10^400', 'A^1000',
-                   'A^(1e308)', '(1e200*A)^2', 'norm([1e308,1e308])', '[10^400,1]', 'A*[1e308,1e308]',
+                   'A^(1e308)', '(1e200*A)^2', 'norm([1e308,1e308,1e308,1e308,1e308])', '[10^400,1]', 'A*[1e308,1e308]',
                    '[[1e308,1e308],[1,1]]*[[1e308,1],[1e308,1]]', 'det(1e200*A)', 'exp(710)*[1,2]', 'A^-1000', '(1e-200*A)^-2',
                    '[1e308,1]+[1e308,1]', '[1,2]/1e-308/1e-308']
 
 
-def form_rows():
+def form_rows(tier='quick'):
     """division by an expression that is exactly zero / arithmetic beyond the largest float, in many syntactic forms"""
+    rows = _form_rows()
+    if tier == 'thorough':
+        extra = []
+        for k, text, what, classes in rows:
+            if k == 'Formula':
+                extra.append(('FormulaInList', ['1', text], what + ' in the later box of a list', classes))
+                if not set('xnmf') & set(text.replace('floor', '').replace('inh', '')):
+                    extra.append(('Numerical', text, what + ' in a numerical answer', classes))
+            else:
+                extra.append(('MatrixInSingleList', '[1,2];' + text, what + ' in the later item of a list', classes))
+        rows = rows + extra
+    return rows
+
+
+def form_graders():
+    g = math_graders(False)
+    g['FormulaInList'] = ListGrader(answers=['1', 'x+1'], subgraders=FormulaGrader(**formula_scope()), ordered=True)
+    g['MatrixInSingleList'] = SingleListGrader(answers=['[1,2]', '[1,2]'], subgrader=MatrixGrader(**matrix_scope()), delimiter=';')
+    return g
+
+
+def _form_rows():
     rows = []
     for f in DIVISIONS:
         for a in NUMERATORS:
@@ -736,13 +776,17 @@ class AnticipatedElsewhere(Family):
         if self.name == 'anticipated_through_wrappers':
             self.wr = wrapper_graders()
             self.rows = wrapped_rows()
-        else:
+        elif self.name == 'anticipated_at_length':
             self.gn = math_graders(False)
-            self.rows = long_rows() if self.name == 'anticipated_at_length' else form_rows()
+            self.rows = long_rows(tier)
+        else:
+            self.gn = form_graders()
+            self.rows = form_rows(tier)
 
     def cases(self, tier):
-        n = len({'anticipated_through_wrappers': wrapped_rows, 'anticipated_at_length': long_rows}.get(self.name, form_rows)())
-        return iter(range(n))
+        if self.name == 'anticipated_through_wrappers':
+            return iter(range(len(wrapped_rows())))
+        return iter(range(len(long_rows(tier) if self.name == 'anticipated_at_length' else form_rows(tier))))
 
     def unpack(self, case):
         if self.name == 'anticipated_through_wrappers':
@@ -755,7 +799,7 @@ class AnticipatedElsewhere(Family):
 
     def describe(self, case):
         if not hasattr(self, 'rows'):
-            self.setup('quick')
+            self.setup('thorough')
         _, name, inp, what, classes = self.unpack(case)
         short = inp if isinstance(inp, list) or len(inp) < 80 else inp[:40] + ' ... ' + inp[-30:]
         return {'grader': name, 'input': short, 'problem': what, 'expected_error': list(classes)}
@@ -972,7 +1016,16 @@ class ValueKeyError(ValueError, KeyError):
 SECRET = 'internal detail {0} %s\nsecond line <br/> of the traceback'
 
 
+_FOREIGN = []
+
+
 def foreign_kinds():
+    if not _FOREIGN:
+        _FOREIGN.append(_foreign_kinds())
+    return _FOREIGN[0]
+
+
+def _foreign_kinds():
     import numpy
     import voluptuous
     import pyparsing
@@ -1026,24 +1079,28 @@ def make_exception(kind, emsg):
     return foreign_kinds()[kind]()
 
 
-def exploding_wrappers(kind, emsg):
+def exploding_wrapper(w, kind, emsg):
+    """the grader in which the failing author code is used as `w`"""
     E = lambda: Exploding(answers='cat', kind=kind, emsg=emsg)
 
     def comparer(comparer_params_eval, student_eval, utils):
         raise make_exception(kind, emsg)
     fscope = dict(variables=['x', "x'"], numbered_vars=['a'], samples=2)
-    return collections.OrderedDict([
-        # name -> (grader, number of boxes, alphabet of texts)
-        ('item', (E(), 1, TEXTS)),
-        ('single_list_item', (SingleListGrader(answers=['cat', 'dog'], subgrader=E(), delimiter=';', missing_error=False), 1, TEXTS)),
-        ('list_box', (ListGrader(answers=['cat', 'dog'], subgraders=E()), 2, TEXTS)),
-        ('list_later_box_only', (ListGrader(answers=['cat', 'dog'], subgraders=[StringGrader(), E()], ordered=True), 2, TEXTS)),
-        ('list_grouped', (ListGrader(answers=[['cat', 'dog'], ['cat', 'dog']], subgraders=ListGrader(subgraders=E()),
-                                     grouping=[1, 1, 2, 2]), 4, TEXTS)),
-        ('formula_comparer', (FormulaGrader(answers={'comparer': comparer, 'comparer_params': ['1']}, **fscope), 1, FORMULA_TEXTS)),
-        ('formula_comparer_in_list', (ListGrader(answers=[{'comparer': comparer, 'comparer_params': ['1']}, '1'],
-                                                 subgraders=FormulaGrader(**fscope), ordered=True), 2, FORMULA_TEXTS)),
-    ])
+    if w == 'item':
+        return E()
+    if w == 'single_list_item':
+        return SingleListGrader(answers=['cat', 'dog'], subgrader=E(), delimiter=';', missing_error=False)
+    if w == 'list_box':
+        return ListGrader(answers=['cat', 'dog'], subgraders=E())
+    if w == 'list_later_box_only':
+        return ListGrader(answers=['cat', 'dog'], subgraders=[StringGrader(), E()], ordered=True)
+    if w == 'list_grouped':
+        return ListGrader(answers=[['cat', 'dog'], ['cat', 'dog']], subgraders=ListGrader(subgraders=E()), grouping=[1, 1, 2, 2])
+    if w == 'formula_comparer':
+        return FormulaGrader(answers={'comparer': comparer, 'comparer_params': ['1']}, **fscope)
+    if w == 'formula_comparer_in_list':
+        return ListGrader(answers=[{'comparer': comparer, 'comparer_params': ['1']}, '1'], subgraders=FormulaGrader(**fscope), ordered=True)
+    raise HarnessError('unknown wrapper %r' % (w,))
 
 
 WRAPPER_NAMES = ['item', 'single_list_item', 'list_box', 'list_later_box_only', 'list_grouped', 'formula_comparer',
@@ -1103,7 +1160,7 @@ class AuthorCodeFails(Family):
         if key not in self.cache:
             if len(self.cache) > 400:
                 self.cache.clear()
-            self.cache[key] = exploding_wrappers(kind, emsg)[w][0]
+            self.cache[key] = exploding_wrapper(w, kind, emsg)
         g = self.cache[key]
         fresh_parser_every(self, 5000)
 
@@ -1254,7 +1311,8 @@ class NonTextPositions(Family):
             '/ list / dict / set, complex, object, a class, range, Ellipsis), (b) the whole submission replaced by a tuple / tuple of '
             'tuples / dict / set / iterator / generator / range / numpy array / bytes / deque of the right length built from the '
             'correct texts, a list nested once more, a list with a surplus None, and for single-box graders falsy objects and short '
-            'lists: always ConfigError, never a grade (a text control case must be graded)' % len(entry_objects()))
+            'lists; thorough: (c) two boxes at a time replaced by every ordered pair of the objects: always ConfigError, never a grade '
+            '(a text control case must be graded)' % len(entry_objects()))
 
     def setup(self, tier):
         self.g = position_graders()
@@ -1271,6 +1329,13 @@ class NonTextPositions(Family):
                         yield (n, 'entry', pos, o)
             for o in range(len(whole_objects(v))):
                 yield (n, 'whole', 0, o)
+            if isinstance(v, list) and tier == 'thorough':
+                # two non-text entries at a time: every pair of positions x every ordered pair of objects
+                for p1 in range(len(v)):
+                    for p2 in range(p1 + 1, len(v)):
+                        for o1 in range(nobj):
+                            for o2 in range(nobj):
+                                yield (n, 'pair', p1 * 10 + p2, o1 * 100 + o2)
 
     def build(self, case):
         n, mode, pos, o = case
@@ -1280,6 +1345,11 @@ class NonTextPositions(Family):
         if mode == 'entry':
             inp = list(v)
             inp[pos] = entry_objects()[o]
+            return inp
+        if mode == 'pair':
+            inp = list(v)
+            inp[pos // 10] = entry_objects()[o // 100]
+            inp[pos % 10] = entry_objects()[o % 100]
             return inp
         return whole_objects(v)[o]
 
